@@ -76,6 +76,11 @@ void PacketWriter::write(PDU& pdu, const struct timeval& tv) {
     header.len = static_cast<bpf_u_int32>(pdu.advertised_size());
     PDU::serialization_type buffer = pdu.serialize();
     header.caplen = static_cast<bpf_u_int32>(buffer.size());
+    // Length fields are only filled in while serializing, so a packet that
+    // was just built advertises less than what is stored
+    if (header.len < header.caplen) {
+        header.len = header.caplen;
+    }
     pcap_dump((u_char*)dumper_, &header, &buffer[0]);
 }
 
